@@ -600,27 +600,39 @@ impl Calendar {
                 Some(era::ISLAMIC_UMALQURA_ERA)
             }
             AnyCalendarKind::Iso if *era_alias == tinystr!(19, "default") => Some(era::ISO_ERA),
-            AnyCalendarKind::Japanese if *era_alias == tinystr!(19, "heisei") => {
+            AnyCalendarKind::Japanese | AnyCalendarKind::JapaneseExtended
+                if *era_alias == tinystr!(19, "heisei") =>
+            {
                 Some(era::HEISEI_ERA)
             }
-            AnyCalendarKind::Japanese if era::JAPANESE_ERA_IDENTIFIERS.contains(era_alias) => {
+            AnyCalendarKind::Japanese | AnyCalendarKind::JapaneseExtended
+                if era::JAPANESE_ERA_IDENTIFIERS.contains(era_alias) =>
+            {
                 Some(era::JAPANESE_ERA)
             }
-            AnyCalendarKind::Japanese
+            AnyCalendarKind::Japanese | AnyCalendarKind::JapaneseExtended
                 if era::JAPANESE_INVERSE_ERA_IDENTIFIERS.contains(era_alias) =>
             {
                 Some(era::JAPANESE_INVERSE_ERA)
             }
-            AnyCalendarKind::Japanese if *era_alias == tinystr!(19, "meiji") => {
+            AnyCalendarKind::Japanese | AnyCalendarKind::JapaneseExtended
+                if *era_alias == tinystr!(19, "meiji") =>
+            {
                 Some(era::MEIJI_ERA)
             }
-            AnyCalendarKind::Japanese if *era_alias == tinystr!(19, "reiwa") => {
+            AnyCalendarKind::Japanese | AnyCalendarKind::JapaneseExtended
+                if *era_alias == tinystr!(19, "reiwa") =>
+            {
                 Some(era::REIWA_ERA)
             }
-            AnyCalendarKind::Japanese if *era_alias == tinystr!(19, "showa") => {
+            AnyCalendarKind::Japanese | AnyCalendarKind::JapaneseExtended
+                if *era_alias == tinystr!(19, "showa") =>
+            {
                 Some(era::SHOWA_ERA)
             }
-            AnyCalendarKind::Japanese if *era_alias == tinystr!(19, "taisho") => {
+            AnyCalendarKind::Japanese | AnyCalendarKind::JapaneseExtended
+                if *era_alias == tinystr!(19, "taisho") =>
+            {
                 Some(era::TAISHO_ERA)
             }
             AnyCalendarKind::Persian if era::PERSIAN_ERA_IDENTIFIERS.contains(era_alias) => {
